@@ -228,6 +228,11 @@ SHAPES = {
     "x*k?": "x:N:0 k:K:1",
     "xyz": "x:N:0 y:N:0 z:N:0",
     "xy*k": "x:N:0 y:N:0 k:K:0",
+    # two keyword-only parameters, in both declaration orders, one of them optional
+    "x*kj": "x:N:0 k:K:0 j:K:0",
+    "x*jk": "x:N:0 j:K:0 k:K:0",
+    "x*j?k": "x:N:0 j:K:1 k:K:0",
+    "x*kj?": "x:N:0 k:K:0 j:K:1",
 }
 
 
